@@ -11,6 +11,7 @@ package main
 
 import (
 	"bytes"
+	"context"
 	"fmt"
 	"math/rand/v2"
 	"strings"
@@ -28,14 +29,14 @@ import (
 )
 
 type config struct {
-	OmitDigest    bool   `json:"omit_digest"`
-	OmitLink      bool   `json:"omit_link"`
-	MaxPage       bool   `json:"max_list_page_size"`
-	NoSinglePost  bool   `json:"disable_single_post"`
-	Hops          int    `json:"hops"`
-	Debug         string `json:"debug"` // none | backend | client | both
-	Loopback      bool   `json:"loopback"`
-	PageSize      int    `json:"page_size"`
+	OmitDigest   bool   `json:"omit_digest"`
+	OmitLink     bool   `json:"omit_link"`
+	MaxPage      bool   `json:"max_list_page_size"`
+	NoSinglePost bool   `json:"disable_single_post"`
+	Hops         int    `json:"hops"`
+	Debug        string `json:"debug"` // none | backend | client | both
+	Loopback     bool   `json:"loopback"`
+	PageSize     int    `json:"page_size"`
 }
 
 func (c config) String() string {
@@ -368,9 +369,81 @@ func (w *world) step(op *model.Op) bool {
 	return !violated
 }
 
+// largeListings: listings longer than any page bound the implementation may have in mind (ten
+// thousand and more entries), asked for with a client page size larger than the listing, the default
+// one and a small multiple; the listing through client and server has to equal the direct one.
+func largeListings(run *evid.Run, idx int) {
+	rng := run.Rand(33, uint64(idx))
+	n := []int{10001, 10000 + rng.IntN(4000), 9999, 20001}[idx%4]
+	page := []int{2 * n, n + 1, 1 << 30, 1000, n - 1, 4096}[(idx/2)%6]
+	c := config{OmitLink: idx%3 == 1, Hops: 1 + idx%2, Debug: "none", PageSize: page}
+	mem := ocimem.New()
+	data := []byte("one opaque manifest for many tags")
+	for i := 0; i < n; i++ {
+		if _, err := mem.PushManifest(context.Background(), "many/tags", fmt.Sprintf("t%06d", i), data, "application/x-opaque"); err != nil {
+			run.Inconclusive("large-listing setup: " + err.Error())
+			return
+		}
+	}
+	nRepos := 0
+	if idx%2 == 0 {
+		nRepos = n
+		for i := 0; i < n; i++ {
+			if _, err := mem.PushManifest(context.Background(), fmt.Sprintf("r%06d", i), "", data, "application/x-opaque"); err != nil {
+				run.Inconclusive("large-listing setup: " + err.Error())
+				return
+			}
+		}
+	}
+	var top ociregistry.Interface = mem
+	var closers []func()
+	for h := 0; h < c.Hops; h++ {
+		opts := &ociserver.Options{OmitLinkHeaderFromResponses: c.OmitLink}
+		r, cl := stack.HTTP(top, stack.HTTPOpts{Server: opts, PageSize: c.PageSize})
+		closers = append(closers, cl)
+		top = r
+	}
+	defer func() {
+		for _, cl := range closers {
+			cl()
+		}
+	}()
+	run.Eval(1)
+	a, b := model.NewEnv(mem), model.NewEnv(top)
+	ops := []*model.Op{{Kind: "Tags", Repo: "many/tags", MaxItems: 4 * n}, {Kind: "Tags", Repo: "many/tags", StartAfter: "t000500", MaxItems: 4 * n}}
+	if nRepos > 0 {
+		ops = append(ops, &model.Op{Kind: "Repositories", MaxItems: 4 * n})
+	}
+	for _, op := range ops {
+		oa := a.Exec(op)
+		var ob *model.Outcome
+		w := map[string]any{"config": c, "entries": n, "client_page_size": page, "op": op.String()}
+		if !run.Case("large-listing/total/"+op.Kind, w, func() { ob = b.Exec(op) }) {
+			return
+		}
+		run.Count("large_listings", 1)
+		run.Count("large_listing_items", len(oa.Items))
+		cls := "page>listing"
+		if page < n {
+			cls = "page<listing"
+		}
+		run.Distinct(fmt.Sprintf("large-listing/%s/%s/omitlink=%v/hops=%d", op.Kind, cls, c.OmitLink, c.Hops))
+		if oa.OK != ob.OK || strings.Join(oa.Items, "\x00") != strings.Join(ob.Items, "\x00") {
+			last := func(o *model.Outcome) string {
+				if len(o.Items) == 0 {
+					return ""
+				}
+				return o.Items[len(o.Items)-1]
+			}
+			run.Violation(fmt.Sprintf("large-listing/%s/%s", op.Kind, cls), fmt.Sprintf("%s over %d entries with client page size %d: directly %d items (ok=%v, last %q), through client and server %d items (ok=%v, last %q, err=%q)", op, n, page, len(oa.Items), oa.OK, last(oa), len(ob.Items), ob.OK, last(ob), ob.Err), w)
+		}
+	}
+}
+
 func main() {
 	run := evid.Start("C03", "exploration")
 	run.SetRule("a case is one history of Interface calls (pushes incl. composite chunked uploads with resume, mounts, manifests incl. 127/128/128+1 KiB ones, deletes, reads, ranges, listings with start points) executed on twin registries: ocimem directly and ociclient→ociserver(→second hop)→recording ocimem, under one of the 16 server option sets × {1,2} hops × ocidebug placement × {in-process transport, loopback}; names and tags are drawn from routing words (blobs, manifests, uploads, tags/list, referrers, v2). " +
+		"Plus large listings: 10^4..2·10^4 tags / repositories listed with client page sizes above, at and below the listing length, one and two hops, with and without Link headers. " +
 		"distinct_nontrivial = distinct (call kind, outcome class, option set, hops); trivial = none.")
 	run.Assume("blob media types and MountBlob's size are not carried by the wire; an empty range cannot be expressed in HTTP (may fail; if it succeeds it is empty); for a PushBlob whose declared size disagrees with its body only failure is compared")
 	run.Assume("for HEAD-based resolves the HTTP status class is compared; an error without a code and UNKNOWN are the same class")
@@ -432,6 +505,10 @@ func main() {
 			run.Sample("history", map[string]any{"config": c, "calls": w.hist})
 		}
 	}
+	for i, nl := 0, run.N(4, 24); i < nl; i++ {
+		largeListings(run, i)
+	}
+	run.FloorCounter("large_listings", 8)
 	run.FloorCounter("backend_calls", 5000)
 	run.FloorCounter("errors_relayed", 500)
 	run.Finish()
